@@ -13,7 +13,10 @@ Import ListNotations.
 Section B2.
   Variable W : Type.
   Variables (wadd wxor : W -> W -> W) (r32 r24 r16 r63 : W -> W).
-  Variable w_of_n : N -> W.          (* from a natural < 2^64 *)
+  Variable w_of_n : N -> W.          (* from a natural < 2^64 (used for the byte counter) *)
+  Variable IV : list W.              (* the 8 initialisation words (IVn below) *)
+  Variable w_ones : W.               (* 0xFFFFFFFFFFFFFFFF *)
+  Variable w_param : W.              (* 0x01010020: depth 1, fanout 1, digest length 32 *)
   Variable w_of_le8 : list N -> W.   (* from (up to) 8 little-endian bytes *)
   Variable w_to_le8 : W -> list N.   (* 8 little-endian bytes *)
 
@@ -28,10 +31,6 @@ Section B2.
     let b := r63 (wxor b c) in
     (a, b, c, d).
 
-  Definition IVn : list N :=
-    [7640891576956012808; 13503953896175478587; 4354685564936845355; 11912009170470909681;
-     5840696475078001361; 11170449401992604703; 2270897969802886507; 6620516959819538809]%N.
-  Definition IV : list W := map w_of_n IVn.
 
   Definition SIGMA : list (list nat) :=
     [[0;1;2;3;4;5;6;7;8;9;10;11;12;13;14;15];
@@ -87,7 +86,7 @@ Section B2.
     let iv := IV in
     let v := h ++ firstn 4 iv ++
              [wxor (nth 4 iv zeroW) (w_of_n t); nth 5 iv zeroW;
-              (if last then wxor (nth 6 iv zeroW) (w_of_n 18446744073709551615%N) else nth 6 iv zeroW);
+              (if last then wxor (nth 6 iv zeroW) w_ones else nth 6 iv zeroW);
               nth 7 iv zeroW] in
     let v := fold_left (fun v s => round m s v) SIGMA v in
     xor3 h (firstn 8 v) (skipn 8 v).
@@ -109,7 +108,7 @@ Section B2.
 
   Definition h_init : list W :=
     match IV with
-    | h0 :: rest => wxor h0 (w_of_n 16842784%N) :: rest   (* 0x01010020: depth 1, fanout 1, outlen 32 *)
+    | h0 :: rest => wxor h0 w_param :: rest
     | [] => []
     end.
 
@@ -118,6 +117,10 @@ Section B2.
     let h := blocks (S (length msg / 128)) h_init msg len 0%N in
     flat_map w_to_le8 (firstn 4 h).
 End B2.
+
+Definition IVn : list N :=
+  [7640891576956012808; 13503953896175478587; 4354685564936845355; 11912009170470909681;
+   5840696475078001361; 11170449401992604703; 2270897969802886507; 6620516959819538809]%N.
 
 (* ---------- reference instance: words are N < 2^64 ---------- *)
 Definition W64 : N := 18446744073709551616%N.
@@ -131,7 +134,7 @@ Fixpoint n_to_le (n : nat) (x : N) : list N :=
 
 Definition blake2b_256_ref : list N -> list N :=
   blake2b_256_gen N n_add N.lxor (n_rotr 32) (n_rotr 24) (n_rotr 16) (n_rotr 63)
-                  (fun x => x) n_of_le (n_to_le 8).
+                  (fun x => x) IVn 18446744073709551615%N 16842784%N n_of_le (n_to_le 8).
 
 (* ---------- fast instance: (hi, lo) 32-bit limbs in primitive 63-bit integers ---------- *)
 Definition w2 := (int * int)%type.
@@ -155,10 +158,27 @@ Definition f_r63 (a : w2) : w2 :=   (* rotate right 63 = rotate left 1 *)
 Definition int_of_n (x : N) : int := Uint63.of_Z (Z.of_N x).
 Definition n_of_int (x : int) : N := Z.to_N (Uint63.to_Z x).
 Definition f_of_n (x : N) : w2 := (int_of_n (x / 4294967296)%N, int_of_n (x mod 4294967296)%N).
+Definition int_of_byte (b : N) : int := Uint63.of_Z (Z.of_N b).
+Definition i_of_le4 (bs : list N) : int :=
+  match bs with
+  | [a; b; c; d] => (int_of_byte a lor (int_of_byte b << 8) lor (int_of_byte c << 16) lor (int_of_byte d << 24))%uint63
+  | _ => int_of_n (n_of_le bs)
+  end.
 Definition f_of_le8 (bs : list N) : w2 :=
-  (int_of_n (n_of_le (skipn 4 bs)), int_of_n (n_of_le (firstn 4 bs))).
-Definition f_to_le8 (a : w2) : list N :=
-  let '(h, l) := a in n_to_le 4 (n_of_int l) ++ n_to_le 4 (n_of_int h).
+  match bs with
+  | [a; b; c; d; e; f; g; h] => (i_of_le4 [e; f; g; h], i_of_le4 [a; b; c; d])
+  | _ => (int_of_n (n_of_le (skipn 4 bs)), int_of_n (n_of_le (firstn 4 bs)))
+  end.
+Definition byte_of_int (x : int) : N := Z.to_N (Uint63.to_Z (x land 255)%uint63).
+Definition i_to_le4 (x : int) : list N :=
+  [byte_of_int x; byte_of_int (x >> 8)%uint63; byte_of_int (x >> 16)%uint63; byte_of_int (x >> 24)%uint63].
+Definition f_to_le8 (a : w2) : list N := let '(h, l) := a in i_to_le4 l ++ i_to_le4 h.
+
+(* the IV and the two constants as limb pairs, computed once (vm_compute does not memoise) *)
+Definition IVf : list w2 :=
+  [(1779033703, 4089235720); (3144134277, 2227873595); (1013904242, 4271175723); (2773480762, 1595750129);
+   (1359893119, 2917565137); (2600822924, 725511199); (528734635, 4215389547); (1541459225, 327033209)]%uint63.
 
 Definition blake2b_256 : list N -> list N :=
-  blake2b_256_gen w2 f_add f_xor f_r32 f_r24 f_r16 f_r63 f_of_n f_of_le8 f_to_le8.
+  blake2b_256_gen w2 f_add f_xor f_r32 f_r24 f_r16 f_r63 f_of_n IVf (m32, m32) (0, 16842784)%uint63
+                  f_of_le8 f_to_le8.
